@@ -164,15 +164,17 @@ static void ob_distributions(H<T>& h)
 {
     // m plain results, each with one distribution of 2 bins: combination applies the rule per bin
     std::size_t const m = h.get("m", 2);
+    std::size_t const by = h.get("by", 1), nb = 2 * by;     // by > 1: a two-dimensional distribution (2 x by bins)
     std::vector<hep::plain_result<T>> results;
-    std::vector<std::vector<hep::mc_result<T>>> bins(2);
-    hep::distribution_parameters<T> params(2, T(0.0), T(1.0), "d");
+    std::vector<std::vector<hep::mc_result<T>>> bins(nb);
+    hep::distribution_parameters<T> params = by > 1 ? hep::distribution_parameters<T>(2, by, T(0.0), T(1.0), T(0.0), T(1.0), "d")
+                                                     : hep::distribution_parameters<T>(2, T(0.0), T(1.0), "d");
     for (std::size_t i = 0; i != m; ++i)
     {
         std::vector<hep::mc_result<T>> b;
-        for (std::size_t k = 0; k != 2; ++k)
+        for (std::size_t k = 0; k != nb; ++k)
         {
-            bool const empty = h.choose("bin_without_non_zero_calls", 2) == 1;
+            bool const empty = (k < 2) ? (h.choose("bin_without_non_zero_calls", 2) == 1) : false;
             T const E = empty ? T(0.0) : h.input("E", -1e6, 1e6);
             T const S = empty ? T(0.0) : h.input("S", 0.0, 1e6, true, false);
             b.push_back(hep::create_result<T>(3 + i, empty ? 0 : 2, empty ? 0 : 2, E, S));
@@ -185,10 +187,10 @@ static void ob_distributions(H<T>& h)
             tot.calls(), tot.non_zero_calls(), tot.finite_calls(), tot.sum(), tot.sum_of_squares());
     }
     hep::plain_result<T> const c = hep::accumulate<hep::weighted_with_variance>(results.begin(), results.end());
-    h.check("C13|distributions.kept", h.truth(c.distributions().size() == 1 && c.distributions()[0].results().size() == 2 &&
+    h.check("C13|distributions.kept", h.truth(c.distributions().size() == 1 && c.distributions()[0].results().size() == nb &&
         c.distributions()[0].parameters().name() == "d"));
-    if (c.distributions().size() != 1 || c.distributions()[0].results().size() != 2) return;
-    for (std::size_t k = 0; k != 2; ++k)
+    if (c.distributions().size() != 1 || c.distributions()[0].results().size() != nb) return;
+    for (std::size_t k = 0; k != nb; ++k)
     {
         hep::mc_result<T> const ref = hep::accumulate<hep::weighted_with_variance>(bins[k].begin(), bins[k].end());
         auto const& got = c.distributions()[0].results()[k];
